@@ -30,9 +30,10 @@ Definition mk_case (tasks : list (N * N)) (root : list N) (syms : list (list N))
 
 Require Import UV.C15.Doc.
 Definition mk_dcase (k : case) (comms : list (N * list N)) (version date : list N) (cmdline : option (list N))
-  (noev : bool) (doc : list N) : dcase :=
+  (noev : bool) (renames : list (N * N * list N)) (doc : list N) : dcase :=
   {| d_case := k; d_comms := comms; d_version := version; d_date := date; d_cmdline := cmdline;
-     d_noev := noev; d_doc := doc |}.
+     d_noev := noev; d_renames := renames; d_doc := doc |}.
+Definition rn (tm : N) (tid : int) (nm : list N) : N * N * list N := (tm, n_ tid, nm).
 Definition cm (tid : int) (comm : list N) : N * list N := (n_ tid, comm).
 
 Require Import UV.C15.GraphF.
